@@ -1800,3 +1800,67 @@ Proof.
                            ASignal false; ASig 2; ASig 2; ASig 2]).
   vm_compute. repeat split; reflexivity.
 Qed.
+
+(* ---------------------------------------------------------------------------------------------
+   The readiness wait (waitReloadReadyOrSignal) *)
+Lemma rw_fixed_le : forall timeout d evs, (snd (ready_wait RFixed timeout d evs) <= d)%N.
+Proof.
+  intros timeout d evs. induction evs as [|[t e] rest IH]; simpl.
+  - lia.
+  - destruct (d <=? t)%N eqn:E; simpl; [lia|].
+    apply N.leb_gt in E.
+    destruct e as [[|]| |]; simpl; first [lia | exact IH].
+Qed.
+
+Lemma rw_fixed_ign : forall timeout d evs,
+  only_ignored evs = true -> ready_wait RFixed timeout d evs = (WRTimeout, d).
+Proof.
+  intros timeout d evs. induction evs as [|[t e] rest IH]; simpl; intros H; auto.
+  destruct (d <=? t)%N; auto.
+  unfold only_ignored in H. simpl in H.
+  destruct e; simpl in H; try discriminate. apply IH. exact H.
+Qed.
+
+Lemma C20_ready_wait_bounded_proof :
+  forall (timeout origin : N) (evs : list (N * wev)),
+    (snd (ready_wait RFixed timeout (origin + timeout) evs) <= origin + timeout)%N /\
+    (only_ignored evs = true -> ready_wait RFixed timeout (origin + timeout) evs = (WRTimeout, (origin + timeout)%N)).
+Proof. intros. split; [apply rw_fixed_le | apply rw_fixed_ign]. Qed.
+
+Lemma C20_ready_wait_bounded_code_proof :
+  ready_deadline_ok gen_ready_deadline = true /\
+  forall (timeout origin : N) (evs : list (N * wev)),
+    (snd (ready_wait gen_ready_deadline timeout (origin + timeout) evs) <= origin + timeout)%N.
+Proof.
+  assert (E : gen_ready_deadline = RFixed) by (vm_compute; reflexivity).
+  rewrite E. split; [reflexivity | intros; apply rw_fixed_le].
+Qed.
+
+Fixpoint rw_sigs (k : N) (n : nat) : list (N * wev) :=
+  match n with
+  | O => []
+  | S m => ((5 * (k + 1))%N, WIgnored) :: rw_sigs (k + 1) m
+  end.
+
+Lemma rw_sigs_ignored : forall n k, only_ignored (rw_sigs k n) = true.
+Proof. induction n; intros k; [reflexivity|]. unfold only_ignored in *. simpl. apply IHn. Qed.
+
+Lemma rw_rearmed_run : forall n k,
+  ready_wait RRearmed 10 (5 * k + 10) (rw_sigs k n) = (WRTimeout, (5 * (k + N.of_nat n) + 10)%N).
+Proof.
+  induction n; intros k.
+  - cbn [rw_sigs ready_wait]. change (N.of_nat 0) with 0%N. rewrite N.add_0_r. reflexivity.
+  - cbn [rw_sigs ready_wait].
+    destruct (5 * k + 10 <=? 5 * (k + 1))%N eqn:E.
+    + apply N.leb_le in E. lia.
+    + rewrite IHn. replace (k + 1 + N.of_nat n)%N with (k + N.of_nat (S n))%N by lia. reflexivity.
+Qed.
+
+Lemma C20_ready_wait_bounded_any_mode_refuted_proof :
+  forall n : nat, exists evs : list (N * wev),
+    only_ignored evs = true /\
+    (snd (ready_wait RRearmed 10 (0 + 10) evs) >= N.of_nat n * 5 + 10)%N.
+Proof.
+  intros n. exists (rw_sigs 0 n). split; [apply rw_sigs_ignored|].
+  change (0 + 10)%N with (5 * 0 + 10)%N. rewrite rw_rearmed_run. cbn [snd]. lia.
+Qed.
